@@ -153,6 +153,18 @@ def F15():
     except Exception as e:
         return (got == "secret!" and keys == set()) and "Template('{:p:}!', p=Value('{X}')): evaluate reads option X (%r), keys() == %r, validate({}) passes, evaluate({}) -> %s" % (got, keys, type(e).__name__)
 
+def F16():
+    runs = []
+    @dataset
+    def whole(section=Option("S")):
+        runs.append(1)
+        return dict(section)
+    a = {"S": {"a": 1, "b": 2}}
+    b = {"S": {"b": 2, "a": 1}}
+    whole(a); whole(b)
+    fa, fb = Option("S").fingerprint(a), Option("S").fingerprint(b)
+    return (a == b and fa != fb) and "equal options %r / %r: fingerprints %r != %r, cached body ran %d times" % (a, b, fa, fb, len(runs))
+
 if __name__ == "__main__":
     names = sys.argv[1:] or [n for n in sorted(globals()) if n[0] == "F" and n[1:].rstrip("b").isdigit()]
     for n in names:
